@@ -3,13 +3,18 @@ from __future__ import annotations
 
 import json
 
-from . import fam_expr
+from . import fam_expr, fam_pairs
 from .core import Part, open_findings
 
 REGISTRY = {
     "C12": {"families": [fam_expr.run], "assumptions": [
         "SQLite 3.40 (the only database available offline) stands for 'a database'",
         "rows range over a,b in -3..4 (exhaustive part) ; deeper random expressions use the same rows"]},
+    "C04": {"families": [fam_pairs.run], "assumptions": [
+        "targets: every row list of length <=3 over a,b in 0..1 (85 targets); slices: one-column targets of length 0..6",
+        "tag reuse (a calculated tag that already exists upstream) is outside the documented contract and not generated"]},
+    "C05": {"families": [fam_pairs.run], "assumptions": [
+        "targets: every row list of length <=3 over a,b in 0..1; all slice pairs with start 0..4, stop None or start..6 on one-column targets of length 0..6"]},
     "C13": {"families": [fam_expr.run], "assumptions": ["rows range over a,b in -3..4"]},
 }
 
